@@ -13,13 +13,15 @@
 (*          here, with every file open and the active file set)            *)
 (* Bug "OpenLeaksLock" reproduces the pinned tree (a failed Open kept the  *)
 (* lock for the life of the process); Bug "EarlyFailLeaksLock" is a        *)
-(* release that is only reached once an active file exists.                *)
+(* release that is only reached once an active file exists; Bug           *)
+(* "CloseUnlocksFirst" is a Close that drops the lock before it has closed *)
+(* its files.                                                              *)
 (***************************************************************************)
 EXTENDS Integers, FiniteSets, TLC
 CONSTANTS Openers, MaxSteps, Bug
 Phases == <<"names", "files", "index">>
 Kinds == {"no", "names", "files", "index"}     \* where loading the directory fails ("no": it loads)
-VARIABLES st,       \* opener -> "closed" | "names" | "files" | "index" | "open"
+VARIABLES st,       \* opener -> "closed" | "names" | "files" | "index" | "open" | "closing"
           holder,   \* the opener holding the lock, or "none"
           corrupt,  \* the phase in which the directory cannot be loaded, or "no"
           last,     \* opener -> result of its last Open attempt
@@ -45,11 +47,16 @@ Load(o) == /\ Tick /\ st[o] \in {"names", "files", "index"}
                    /\ last' = IF NextPhase(st[o]) = "open" THEN [last EXCEPT ![o] = "ok"] ELSE last
                    /\ UNCHANGED holder
            /\ UNCHANGED corrupt
-Close(o) == /\ Tick /\ st[o] = "open" /\ st' = [st EXCEPT ![o] = "closed"] /\ holder' = "none"
-            /\ UNCHANGED <<corrupt, last>>
+\* Close, step 1: flush and close the data files; step 2: release the lock (Bug "CloseUnlocksFirst": the lock is
+\* released at the beginning of Close, while the files are still open)
+CloseFiles(o) == /\ Tick /\ st[o] = "open" /\ st' = [st EXCEPT ![o] = "closing"]
+                 /\ holder' = IF "CloseUnlocksFirst" \in Bug THEN "none" ELSE holder
+                 /\ UNCHANGED <<corrupt, last>>
+CloseUnlock(o) == /\ Tick /\ st[o] = "closing" /\ st' = [st EXCEPT ![o] = "closed"] /\ holder' = "none"
+                  /\ UNCHANGED <<corrupt, last>>
 \* somebody repairs / damages the directory while nobody has it open
 Flip == /\ Tick /\ holder = "none" /\ corrupt' \in Kinds \ {corrupt} /\ UNCHANGED <<st, holder, last>>
-Next == (\E o \in Openers : TryOpen(o) \/ Load(o) \/ Close(o)) \/ Flip
+Next == (\E o \in Openers : TryOpen(o) \/ Load(o) \/ CloseFiles(o) \/ CloseUnlock(o)) \/ Flip
 Spec == Init /\ [][Next]_vars
 
 AtMostOneOpen == Cardinality({o \in Openers : st[o] # "closed"}) <= 1
